@@ -156,8 +156,8 @@ def run(prop, tier, seed):
     plan = [(name, tunit, nref) for nref in ((4,) if quick else (3, 6, 10, 14, 18, 24))
             for name, tunit in (("UnitSquare", 1.0), ("Circle", 1.0), ("LShape", 1.0), ("PiSquare", 4.0))]
     for name, tunit, nref in plan:
-        lay = ParamLayout(name, 1, 12, tunit)
-        mesh = refined_mesh(lay, rng, nref)
+        lay = ParamLayout(name, 1, 20, tunit)
+        mesh, path_ops = refined_mesh_with_path(lay, rng, nref)
         elems = list(mesh.leaf_elements)
         keys = [gkey(e) for e in elems]
         N = len(elems)
@@ -204,7 +204,7 @@ def run(prop, tier, seed):
             est_2p = HH2ErrorEstimator(SL=SL, g=glin, use_mp=True).estimate(elems, Phi_g)
             # independent: replayed copy refined by real bisection
             m2 = lay.new_mesh()
-            path = mesh_path(mesh, lay)
+            path = path_ops
             for op in path:
                 ml.apply_op(m2, lay, op)
             coarse2 = list(m2.leaf_elements)
@@ -352,6 +352,21 @@ def run(prop, tier, seed):
     ctx.assumptions = ["atoms are pseudo-random numbers keyed by element geometry with a dominant diagonal (scaling factors positive)",
                        "definition computed with single bilform / linform evaluations on a replayed copy refined by real uniform bisection"]
     return ctx.finish()
+
+
+def refined_mesh_with_path(lay, rng, steps):
+    """random refinement (aspect kept moderate) together with the operation path that reproduces it on a fresh mesh"""
+    mesh = lay.new_mesh()
+    ops = []
+    with contextlib.redirect_stdout(io.StringIO()):
+        for _ in range(steps):
+            e = rng.choice(list(mesh.leaf_elements))
+            ax = rng.randrange(2)
+            if e.h_x ** 2 / e.h_t > 8:
+                ax = 1
+            ops.append(("bisect", ml.leaf_tuple(e, lay), ax))
+            mesh.refine_axis(e, ax)
+    return mesh, ops
 
 
 def mesh_path(mesh, lay):
